@@ -40,6 +40,13 @@ std::mutex& TimeZoneMutex() {
   return *time_zone_mutex;
 }
 
+// Mutual exclusion for the loading of time zones that are not in the map.
+std::mutex& LoadMutex() {
+  // Intentionally "leaked", like the mutex above.
+  static std::mutex* load_mutex = new std::mutex;
+  return *load_mutex;
+}
+
 }  // namespace
 
 #if defined(GOOGLE_CCTZ_VERIF)
@@ -91,7 +98,22 @@ bool time_zone::Impl::LoadTimeZone(const std::string& name, time_zone* tz) {
 
   CCTZ_VERIF_LOAD_HOOK(2, name);  // cache miss (map lock released)
 
-  // Load the new time zone (outside the lock).
+  // Loads are serialized, and the map is rechecked once it is our turn, so
+  // that cctz_extension::zone_info_source_factory() is called only once for
+  // any zone name and never concurrently (see zone_info_source.h).
+  std::lock_guard<std::mutex> load_lock(LoadMutex());
+  {
+    std::lock_guard<std::mutex> lock(TimeZoneMutex());
+    if (time_zone_map != nullptr) {
+      TimeZoneImplByName::const_iterator itr = time_zone_map->find(name);
+      if (itr != time_zone_map->end()) {
+        *tz = time_zone(itr->second);
+        return itr->second != utc_impl;
+      }
+    }
+  }
+
+  // Load the new time zone (outside the map lock).
   std::unique_ptr<const Impl> new_impl(new Impl(name));
   CCTZ_VERIF_LOAD_HOOK(5, name);  // new Impl constructed
 
